@@ -154,6 +154,24 @@ def gen_c05(tier, rng):
         if rng.random() < 0.3:
             b = norm_ct(rng)
         cases.append("cmp %d %d %s %s" % (rng.randint(0, 5), rng.randint(0, 5), " ".join(map(str, a)), " ".join(map(str, b))))
+    # aimed at n_day's case splits as step() reaches them: the hour step passes the RAW day f.d + n/24
+    # (possibly <= 0: previous-year shortcut at -365, 400-year borrow below), the other steps carry
+    # through cd; targets are day arguments at the boundaries of every branch of n_day
+    DAYB = [-146098, -146097, -146096, -731, -730, -367, -366, -365, -364, -363, -31, -1, 0, 1, 27, 28, 29, 30, 31, 32,
+            59, 60, 364, 365, 366, 367, 730, 731, 1460, 1461, 1462, 36523, 36524, 36525, 36526, 146096, 146097, 146098,
+            146099, 292194, 292195]
+    per = {0: 86400, 1: 1440, 2: 24, 3: 1}
+    for _ in range(n // 5):
+        tag = rng.choice([2, 2, 2, 0, 1, 3])
+        a = norm_ct(rng)
+        if rng.random() < 0.7:
+            a[0] = rng.choice([1970, 2000, 2001, 2013, 2014, 2015, 2016, 2017, 1900, 1901, 2100, 2101, 2400, 2401, -1, 0, 1, 399, 400, 401])
+        if rng.random() < 0.5:
+            a[1], a[2] = rng.choice([(1, 1), (1, 31), (2, 28), (3, 1), (12, 31), (2, 1), (12, 1)])
+        target = rng.choice(DAYB) + rng.choice([0, 0, 146097, -146097, 146097 * rng.randint(-5, 5)])
+        k = (target - a[2]) * per[tag] + rng.randint(-per[tag], per[tag])
+        cases.append("%s %d %s %d" % ("add", tag, " ".join(map(str, a)), k))
+        cases.append("%s %d %s %d" % ("sub", tag, " ".join(map(str, a)), -k))
     # extremes
     for tag in range(6):
         for a in ([I64_MAX, 12, 31, 23, 59, 59], [I64_MIN, 1, 1, 0, 0, 0], [1970, 1, 1, 0, 0, 0]):
